@@ -294,7 +294,7 @@ def work_mirror(bins, cases):
 
 def run(ctx):
     quick = ctx.tier == "quick"
-    per = 260 if quick else 9000
+    per = 1000 if quick else 12000
     res = core.pmap(work, [(ctx.bins, "%s/%d/%d" % (ctx.prop, ctx.seed, i), per) for i in range(32)])
     merged = {}
     for r in res:
